@@ -54,6 +54,7 @@ type env struct {
 	deps    [][][]int
 	inputs  []atomic.Int64
 	panicAt map[int]int
+	failAt  map[int][2]int64 // key -> (r, m): Execute returns its own fatal error iff input % m == r
 	slowUs  map[int]int64
 	counts  []atomic.Int64
 	jit     *rng
@@ -108,9 +109,18 @@ type Q struct {
 
 func (q *Q) Key() any { return K(q.ID) }
 
+// errFail is the fatal error a failing query returns from Execute (an ordinary error: no panic, no cycle).
+type errFail struct{ id int }
+
+func (e *errFail) Error() string { return fmt.Sprintf("query %d failed", e.id) }
+
 func fatalKind(err error) (string, []int) {
 	if err == nil {
 		return "none", nil
+	}
+	var fe *errFail
+	if errors.As(err, &fe) {
+		return "fail", nil
 	}
 	var cyc *incremental.ErrCycle
 	if errors.As(err, &cyc) {
@@ -143,8 +153,14 @@ func (q *Q) Execute(t *incremental.Task) (int64, error) {
 	e.jitter()
 	groups := e.deps[q.ID]
 	pa, hasPanic := e.panicAt[q.ID]
-	v := e.inputs[q.ID].Load() % modulus
+	in := e.inputs[q.ID].Load()
+	v := in % modulus
 	var fatal error
+	if fa, ok := e.failAt[q.ID]; ok && fa[1] > 0 && in%fa[1] == fa[0] {
+		// the query fails on its own (a function of its own input); it still resolves its dependencies
+		// and returns the error together with the value, like a query that reports a parse failure
+		fatal = &errFail{q.ID}
+	}
 	j := int64(0)
 	for g, grp := range groups {
 		e.gate(q.ID, g)
@@ -264,7 +280,7 @@ func doRun(ctx context.Context, ex *incremental.Executor, e *env, keys []int) ma
 func incCase(in map[string]any) map[string]any {
 	n := int(vhlib.Num(in, "n"))
 	e := &env{n: n, deps: make([][][]int, n), inputs: make([]atomic.Int64, n), counts: make([]atomic.Int64, n),
-		panicAt: map[int]int{}, slowUs: map[int]int64{}, ranVal: map[int][]int64{}}
+		panicAt: map[int]int{}, failAt: map[int][2]int64{}, slowUs: map[int]int64{}, ranVal: map[int][]int64{}}
 	for i, a := range vhlib.List(in, "deps") {
 		if i >= n {
 			break
@@ -282,6 +298,15 @@ func incCase(in map[string]any) map[string]any {
 		for k, v := range m {
 			ki, _ := strconv.Atoi(k)
 			e.panicAt[ki] = int(vhlib.AnyNum(v))
+		}
+	}
+	if m, ok := in["fail"].(map[string]any); ok {
+		for k, v := range m {
+			ki, _ := strconv.Atoi(k)
+			rm := intsAny(v)
+			if len(rm) == 2 {
+				e.failAt[ki] = [2]int64{int64(rm[0]), int64(rm[1])}
+			}
 		}
 	}
 	if m, ok := in["slow_us"].(map[string]any); ok {
